@@ -175,6 +175,13 @@ def mutations(n, r):
                        tuple(tuple((c + 'X' if c == names[0] else c, v) for c, v in row) for row in rows))
     yield 'col-added', ('grid', ver, meta, cols + (('zzNew', ()),), rows)
     yield 'meta-name:add', ('grid', ver, meta + (('zzNewMeta', D.MARKER),), cols, rows)
+    for ci, (c, cm) in enumerate(cols):
+        if cm:
+            # same number of column-metadata tags, one of them under another name
+            ncm = ((cm[0][0] + 'X', cm[0][1]),) + cm[1:]
+            yield 'colmeta-name:rename', ('grid', ver, meta, cols[:ci] + ((c, ncm),) + cols[ci + 1:], rows)
+            yield 'colmeta-name:drop', ('grid', ver, meta, cols[:ci] + ((c, cm[1:]),) + cols[ci + 1:], rows)
+            break
     if meta:
         yield 'meta-name:rename', ('grid', ver, ((meta[0][0] + 'X', meta[0][1]),) + meta[1:], cols, rows)
         yield 'meta-name:drop', ('grid', ver, meta[1:], cols, rows)
@@ -205,6 +212,12 @@ def cell_mutations(old, r):
     r.shuffle(picks)
     for x in picks[:2]:
         yield 'kind', x
+    # a number and a Quantity of the same magnitude are different kinds of cell; so are two units
+    if k == 'num' and not (isinstance(old[1], float) and old[1] != old[1]) and not isinstance(old[1], bool):
+        yield 'kind', ('num', old[1], 'kg')
+    if k == 'qty' and not (isinstance(old[1], float) and old[1] != old[1]):
+        yield 'kind', ('num', old[1], None)
+        yield 'content', ('num', old[1], 'otherUnit' if old[2] != 'otherUnit' else 'kg')
     # same kind, content beyond tolerance
     if k in ('num', 'qty'):
         v = old[1]
